@@ -11,7 +11,10 @@ THEOREMS = [
     'Tbox.C08.C08_cab_size', 'Tbox.C08.C08_cab_foreach_effect', 'Tbox.C08.C08_cab_foreach_remove', 'Tbox.C08.C08_spec_dead_forever', 'Tbox.C08.C08_cab_lookup_counterexample', 'Tbox.C08.C08_cab_wrap_counterexample',
     'Tbox.C08.C08_pool_no_alias', 'Tbox.C08.C08_pool_ctor_dtor', 'Tbox.C08.C08_pool_keep', 'Tbox.C08.C08_pool_stat', 'Tbox.C08.C08_pool_no_leak',
     'Tbox.C08.C08_fd_refcount', 'Tbox.C08.C08_fd_close_once',
-    'Tbox.C08.C08_lt_no_use_after_free', 'Tbox.C08.C08_lt_alive', 'Tbox.C08.C08_lt_free_once',
+    'Tbox.C08.C08_lt_no_use_after_free', 'Tbox.C08.C08_lt_alive', 'Tbox.C08.C08_lt_free_once', 'Tbox.C08.C08_lt_dead_forever',
+    'Tbox.C08.C08_tok_roundtrip', 'Tbox.C08.C08_tok_null', 'Tbox.C08.C08_tok_order', 'Tbox.C08.C08_tok_hash',
+    'Tbox.C08.C08_cab_bulk_alloc', 'Tbox.C08.C08_cab_bulk_free', 'Tbox.C08.C08_cab_array_refines', 'Tbox.C08.C08_cab_jump',
+    'Tbox.C08.C08_pool_bulk',
 ]
 SOURCES = ['modules/util/fd.cpp'] + vlib.BASE_SOURCES
 FLAVOUR = 'asan'
@@ -26,15 +29,23 @@ TRUSTED = [
     'use-after-free of real storage is observed on the implementation side only (ASan + the probe type registering its addresses)',
     'Fd: the kernel gives every open a descriptor that is not open at that moment (modelled as a fresh number); Detail* is an index into a heap list',
     'LifetimeTag: Detail* is an index into a heap list; a deleted record is recognised on the implementation side by ASan poisoning (quarantine)',
+    'the driver executes the cabinet over an Array (lean/TboxModel/C08/Fast.lean, CabA); C08_cab_array_refines proves every CabA function equal to the list model, '
+    'so the answers to the bulk ops (70 000+ live entries) are runs of the model, not of a second model; digests (count, first failing index, checksum) are driver/harness glue',
+    'op `cab jump v` writes Cabinet::last_id_ directly (harness compiled with private->public) to reach ids near 2^64; C08_cab_jump shows the state is consistent',
 ]
-ASSUMPTIONS = ['fewer than 2^64-1 allocations on one Cabinet (id wrap-around excluded: hypothesis `wrapped = false` of the cabinet theorems)',
+ASSUMPTIONS = ['fewer than 2^64-1 allocations on one Cabinet (id wrap-around excluded: hypothesis `wrapped = false` of the cabinet theorems; '
+               'the bulk theorems carry it as `last_id_ + n <= 2^64-1`); the wrap itself is executed on both sides via `cab jump` and agrees with C08_cab_wrap_counterexample',
+               'cell positions fit size_t (a std::vector cannot be larger); token positions/ids beyond 2^16, 2^32, 2^48 need no hypothesis (C08_tok_roundtrip)',
                'ObjectPool::free is only called with live objects of the same pool (API contract)',
                'malloc does not fail', 'ObjectPool::free of a pointer twice / of a foreign pointer is outside the contract and not modelled',
                'a foreach callback that allocates on every invocation is bounded by the initial cell count (code after patches/C08-02)']
 RULE = ('op histories over one Cabinet<int> (tokens retained for the whole history and re-queried with `scan`), one ObjectPool<Probe> (probe constructors/destructors run nested alloc/free scripts on the same pool) '
-        'with 16 user slots and retention limits {0,1,2,3,5,16,max}, 8 Fd handles on real descriptors dup()ed from a pipe, and 4 LifetimeTag + 6 Watcher slots; '
+        'with 16 user slots and retention limits {0,1,2,3,5,16,max}, 8 Fd handles on real descriptors dup()ed from a pipe (also invalid numbers and empty close functions), and 4 LifetimeTag + 6 Watcher slots; '
+        'bulk histories: n allocations in a row (n around 2^16 and up to 70 000 in quick, 300 000 in thorough) with every token re-queried, subsets freed in both orders, re-allocation over the freed cells; '
+        'pools with up to 70 000 objects alive at once beyond any retention limit; Token values built from arbitrary size_t pairs at the boundaries 2^8, 2^16, 2^32, 2^48, 2^56, 2^63, 2^64-1; '
         'non-trivial = the model run queries a stale token whose cell has been reused, or removes during foreach, or reuses a parked '
-        'pool block after a release, or closes a descriptor through the last of several copies, or lets watchers outlive their tag / frees a tag record through its last watcher; distinct = distinct op text')
+        'pool block after a release, or closes a descriptor through the last of several copies, or lets watchers outlive their tag / frees a tag record through its last watcher, '
+        'or holds more than 2^16 cells, or parks beyond the retention limit in a bulk run, or builds a token with a position >= 2^16 / id >= 2^48; distinct = distinct op text')
 
 
 # ---------------------------------------------------------------------------------- differ
@@ -208,7 +219,10 @@ def gen_fd(rng, nops):
     for _ in range(nops):
         a = rng.randrange(nslots); b = rng.randrange(nslots); x = rng.random()
         if x < 0.16 and opened < 190:
-            ops.append('fd open %d %s' % (a, rng.choice(['fn', 'fn', 'raw']))); opened += 1
+            if rng.random() < 0.12:
+                ops.append('fd openneg %d %d %s' % (a, rng.randrange(3), rng.choice(['fn', 'raw'])))
+            else:
+                ops.append('fd open %d %s' % (a, rng.choice(['fn', 'fn', 'raw', 'nullfn']))); opened += 1
         elif x < 0.32:
             ops.append('fd cpa %d %d' % (a, b))
         elif x < 0.44:
@@ -262,10 +276,94 @@ def gen_mixed(rng, nops):
     return out
 
 
+# boundary values of size_t members (Token id / pos): every power of two a narrower field would cut at
+B64 = sorted(set([0, 1, 2, 3, 255, 256, 257, 2**15, 2**16 - 1, 2**16, 2**16 + 1, 2**24, 2**31, 2**32 - 1, 2**32, 2**32 + 1,
+                  2**40, 2**48 - 1, 2**48, 2**48 + 1, 2**56 - 1, 2**56, 2**56 + 1, 2**63 - 1, 2**63, 2**63 + 1, 2**64 - 2, 2**64 - 1]))
+
+
+def r64(rng):
+    x = rng.random()
+    if x < 0.7: return rng.choice(B64)
+    if x < 0.8: return rng.randrange(2**64)
+    b = rng.choice([8, 16, 32, 48, 56, 63, 64])
+    return max(0, min(2**64 - 1, 2**b + rng.randrange(-3, 4)))
+
+
+def gen_tok(rng, nops):
+    ops = ['tok def']
+    for _ in range(nops):
+        x = rng.random()
+        if x < 0.4:
+            ops.append('tok mk %d %d' % (r64(rng), r64(rng)))
+        elif x < 0.75:
+            a, b = r64(rng), r64(rng); y = rng.random()
+            c, d = (a, b) if y < 0.15 else (a, r64(rng)) if y < 0.45 else (r64(rng), b) if y < 0.6 else (r64(rng), r64(rng))
+            ops.append('tok cmp %d %d %d %d' % (a, b, c, d))
+        elif x < 0.9:
+            k = rng.randrange(0, 12); pool = [(r64(rng), r64(rng)) for _ in range(max(1, k // 2))]
+            ops.append('tok set ' + ' '.join('%d %d' % rng.choice(pool) for _ in range(k)))
+        else:
+            ops.append('tok reset %d %d' % (r64(rng), r64(rng)))
+    return ops
+
+
+def gen_bulk(rng, n, pre=0):
+    """n allocations in a row (after `pre` random single ops, so the free list may be non-empty), every token
+    re-queried, a subset freed in either order, re-allocation over the freed cells, everything re-queried"""
+    g = CabGen(rng, 8)
+    for _ in range(pre):
+        g.step(0.0)
+    ops = [o for o in g.ops if not o.startswith('cab each')]      # (the issued-token count must stay exact)
+    t0 = sum(1 for o in ops if o.startswith('cab alloc'))
+    o0 = rng.randrange(1000)
+    ops += ['cab bulk alloc %d %d' % (n, o0), 'cab size', 'cab bulk at 0 %d' % (t0 + n), 'cab bulk distinct']
+    tot = t0 + n
+    for _ in range(rng.choice([1, 2, 3])):
+        m = rng.choice([1, 2, 3, 7, 1000]); r = rng.randrange(m); frm = rng.choice([0, t0, max(0, tot - n // 2 - 1)])
+        cnt = rng.choice([tot - frm, (tot - frm) // 2, min(tot - frm, 70000)])
+        ops += ['cab bulk free %d %d %d %d %s' % (frm, cnt, m, r, rng.choice(['up', 'down'])), 'cab bulk at 0 %d' % tot]
+        if rng.random() < 0.6:
+            k = rng.choice([1, 5, n // 3 + 1, n // 2 + 7])
+            ops += ['cab bulk alloc %d %d' % (k, rng.randrange(1000)), 'cab bulk at 0 %d' % (tot + k)]; tot += k
+    # single ops on the big cabinet: stale and live tokens on both sides of cell 65536
+    for _ in range(12):
+        i = rng.choice([0, 1, tot - 1, tot // 2, min(tot - 1, 65535), min(tot - 1, 65536), min(tot - 1, 65537), rng.randrange(tot)]) if tot else 0
+        if tot == 0: break
+        ops.append(rng.choice(['cab at %d', 'cab free %d', 'cab at %d', 'cab upd %d 77']) % i)
+    ops += ['cab alloc 5', 'cab at %d' % tot, 'cab atraw %d %d' % (rng.choice([1, tot, 2**48 + 1]), rng.choice([65536, 65537, 2**32 + 1, 2**64 - 1])),
+            'cab bulk distinct', 'cab size']
+    if rng.random() < 0.5:
+        ops += ['cab clear', 'cab bulk at 0 %d' % (tot + 1), 'cab bulk alloc %d 1' % min(n, 1000), 'cab bulk at 0 %d' % (tot + 1 + min(n, 1000)), 'cab size']
+    return ops
+
+
+def gen_jump(rng):
+    """ids near 2^64: the counter is put just below the maximum; the wrap (id 0 skipped, ids re-issued from 1)
+    is the stated hypothesis of the theorems - both sides must still agree on it"""
+    k = rng.randrange(1, 5)
+    ops = ['cab alloc %d' % (i + 1) for i in range(k)] + ['cab free 0']
+    ops += ['cab jump %d' % (2**64 - 1 - rng.randrange(0, 4))]
+    for _ in range(rng.randrange(2, 8)):
+        ops.append(rng.choice(['cab alloc 9', 'cab alloc 8', 'cab free %d' % rng.randrange(k), 'cab at 0', 'cab scan', 'cab size', 'cab bulk alloc 5 1']))
+    return ops + ['cab scan', 'cab bulk distinct', 'cab atraw 1 0', 'cab atraw 18446744073709551615 0', 'cab jump 3']
+
+
+def gen_pool_bulk(rng, n):
+    keep = rng.choice(['0', '1', '16', str(max(0, n - 1)), str(n), str(n + 1), 'max', str(rng.randrange(n + 2))])
+    lim = n if keep == 'max' else min(n, int(keep))
+    m = rng.choice([0, lim, min(n, lim + 1), n, rng.randrange(n + 1)])
+    return ['pool bulk %d %s %d' % (n, keep, m), 'pool stat']
+
+
 MALFORMED = ['cab', 'cab alloc', 'cab alloc 1000', 'cab alloc x', 'cab at 0', 'cab free 5', 'cab each 0:0', 'cab frob', 'cab atraw 1',
              'pool alloc 16 1', 'pool alloc 0', 'pool free 99', 'pool new -1', 'pool new', 'pool drop', 'pool drop x', 'fd open 8 fn', 'fd open 0 xx', 'fd cpc 1 1',
              'fd mvc 2 2', 'fd swap 0', 'fd close 9', 'frob 1', 'cab alloc 5', 'cab each 0:0,', 'cab each 0:1', 'cab each 0;0', 'cab each 0:0', 'cab each 0:a', 'cab each 0:a1000', 'cab each 0:u0', 'cab each 0:u0.1.2', 'cab each 0:cc', 'cab each 0:u9.1',
              'cab upd 0 1000', 'cab at 00', 'cab at 1', 'cab clear now', 'fd', 'pool', 'lt', 'lt tnew 4', 'lt wnew 6', 'lt wcpc 1 1', 'lt tcpc 0 0', 'lt wtag 0', 'lt frob 0', 'lt wtag 6 0',
+             'tok', 'tok mk', 'tok mk 1', 'tok mk 18446744073709551616 0', 'tok mk 0 18446744073709551616', 'tok mk 18446744073709551615 18446744073709551615',
+             'tok mk 00000000000000000001 1', 'tok mk 000000000000000000001 1', 'tok mk 1_0 1', 'tok mk -1 1', 'tok cmp 1 2 3', 'tok set 1', 'tok set 1 2 3', 'tok set', 'tok reset 1', 'tok frob',
+             'cab atraw 18446744073709551616 0', 'cab atraw 18446744073709551615 18446744073709551615', 'cab jump', 'cab jump 18446744073709551616', 'cab bulk', 'cab bulk alloc 400001 1', 'cab bulk alloc 3 1000',
+             'cab bulk at 0 1', 'cab bulk free 0 0 0 0 up', 'cab bulk free 0 0 1 1 up', 'cab bulk free 0 0 1 0 sideways', 'cab bulk free 0 0 1 0 up', 'cab bulk distinct', 'cab bulk distinct 1',
+             'pool bulk 3 max 4', 'pool bulk 3 x 1', 'pool bulk 400001 1 1', 'pool bulk 0 0 0', 'fd open 0 nullfn', 'fd openneg 0 3 fn', 'fd openneg 0 0 xx', 'fd openneg 8 0 fn', 'fd openneg 1 2 raw', 'fd new 0', 'fd new 1',
              'cab alloc 1_0', 'cab alloc 000000000000000001', 'cab alloc 00000000000001', 'cab alloc +1', 'pool new 1_0', 'cab at 0_0']
 
 
@@ -296,7 +394,45 @@ def gen(rng, tier):
     yield ['lt tnew 0', 'lt wtag 0 0', 'lt wcpc 1 0', 'lt tdel 0', 'lt wreset 0', 'lt wreset 1', 'lt tnew 0', 'lt wset 0 0', 'lt wnew 0', 'lt tdel 0']
     yield ['lt wcpc 1 0', 'lt wcpa 2 3', 'lt wcpa 2 2', 'lt tnew 0', 'lt wget 0 0', 'lt wmvc 1 0', 'lt wcpc 2 0', 'lt wcpa 3 0', 'lt wmva 4 0',
            'lt tcpc 1 0', 'lt tmvc 2 0', 'lt wset 5 1', 'lt tcpa 1 0', 'lt tmva 0 2', 'lt tdel 0', 'lt tdel 1', 'lt wtag 0 3', 'lt tcpc 3 0', 'lt tdel 2']
+    # invalid descriptor numbers and empty close functions: never closed / closed with ::close, shared and chained
+    yield ['fd openneg 0 0 fn', 'fd cpa 1 0', 'fd mva 2 1', 'fd close 0', 'fd close 2', 'fd swap 0 2', 'fd reset 0', 'fd reset 2', 'fd openneg 3 1 raw', 'fd cpc 4 3',
+           'fd close 4', 'fd new 3', 'fd new 4', 'fd open 5 nullfn', 'fd cpa 6 5', 'fd mva 5 5', 'fd swap 6 6', 'fd mva 7 6', 'fd reset 5', 'fd close 7', 'fd close 7', 'fd new 7',
+           'fd open 0 nullfn', 'fd cpc 1 0', 'fd new 0', 'fd new 1', 'fd openneg 2 2 fn', 'fd mvc 3 2', 'fd new 3', 'fd new 2']
+    # watchers copied / assigned / moved / swapped AFTER their tag died; then re-bound to a new tag
+    yield ['lt tnew 0', 'lt wtag 0 0', 'lt tdel 0', 'lt wcpc 1 0', 'lt wcpa 2 0', 'lt wcpa 2 0', 'lt wmvc 3 1', 'lt wmva 4 2', 'lt wswap 0 5', 'lt wswap 5 5', 'lt wcpa 5 5', 'lt wmva 5 5',
+           'lt tnew 0', 'lt wset 3 0', 'lt wcpa 4 3', 'lt wcpa 3 5', 'lt wreset 5', 'lt wreset 3', 'lt wreset 4', 'lt tdel 0', 'lt wnew 0', 'lt wnew 1', 'lt wnew 2']
+    yield ['lt tnew 1', 'lt wget 0 1', 'lt wcpc 1 0', 'lt tcpc 0 1', 'lt tdel 1', 'lt wcpa 2 1', 'lt wmva 1 0', 'lt wset 0 0', 'lt wcpa 0 2', 'lt tdel 0', 'lt wcpc 3 0', 'lt wreset 0',
+           'lt wreset 1', 'lt wreset 2', 'lt wreset 3']
+    # tokens: every boundary value as id and as position; order and hash on neighbours of the boundaries
+    yield ['tok def'] + ['tok mk %d %d' % (v, v2) for v in B64 for v2 in (0, v)] + ['tok reset %d %d' % (2**64 - 1, 2**64 - 1)]
+    yield ['tok mk 1 %d' % v for v in B64] + ['tok mk %d 1' % v for v in B64]
+    yield ['tok cmp 1 %d 1 %d' % (B64[i], B64[i + 1]) for i in range(len(B64) - 1)] + ['tok cmp %d 5 %d 5' % (B64[i + 1], B64[i]) for i in range(len(B64) - 1)] + \
+          ['tok cmp %d %d %d %d' % (a, 2**64 - 1, a + 1, 0) for a in B64[:-1]] + ['tok cmp 7 %d 7 %d' % (v, v + 256) for v in (0, 255, 65536)] + \
+          ['tok cmp %d 1 %d 1' % (v, v + 2**56) for v in (0, 1, 255)]
+    yield ['tok set ' + ' '.join('1 %d' % v for v in B64), 'tok set ' + ' '.join('%d 1' % v for v in reversed(B64)),
+           'tok set ' + ' '.join('%d %d' % (v, 65536 + (v % 3)) for v in B64) + ' 1 65536 1 0 1 65536', 'tok set 1 0 1 65536 1 131072 1 4294967296 65537 0 1 0']
+    # ids at the very end of the range (the cabinet theorems' hypothesis): the wrap as coded, on both sides
+    yield ['cab alloc 1', 'cab alloc 2', 'cab free 0', 'cab jump 18446744073709551614', 'cab alloc 3', 'cab alloc 4', 'cab alloc 5', 'cab scan', 'cab at 0',
+           'cab free 1', 'cab alloc 6', 'cab scan', 'cab bulk distinct', 'cab atraw 18446744073709551615 0', 'cab atraw 0 0', 'cab jump 1', 'cab size']
+    # many live entries: around the 2^16-th cell (a 16-bit position wraps exactly there), then well beyond
+    for nb in ([65535, 65536, 65537, 70000] if quick else [65535, 65536, 65537, 70000, 131073, 300000]):
+        yield gen_bulk(rng, nb, pre=rng.choice([0, 0, 30]))
+    yield ['cab bulk alloc 65536 1', 'cab bulk at 0 65536', 'cab alloc 7', 'cab at 0', 'cab at 65536', 'cab bulk at 0 65537', 'cab free 0', 'cab at 65536', 'cab alloc 8',
+           'cab at 65537', 'cab at 65536', 'cab bulk at 0 65538', 'cab bulk distinct', 'cab size', 'cab bulk free 0 65538 1 0 down', 'cab size', 'cab bulk at 0 65538',
+           'cab bulk alloc 65538 3', 'cab bulk at 0 131076', 'cab size']
+    for nb in ([70000, 1000, 17] if quick else [70000, 300000, 1000, 17, 65537]):
+        for _ in range(2):
+            yield gen_pool_bulk(rng, nb)
+    yield ['pool bulk 0 0 0', 'pool bulk 1 0 1', 'pool bulk 1 1 1', 'pool bulk 2 1 2', 'pool bulk 70000 69999 70000', 'pool bulk 70000 max 70000', 'pool bulk 70000 0 70000']
     n = 4 if quick else 24
+    for _ in range(40 * n):
+        yield gen_bulk(rng, rng.choice([0, 1, 2, 5, 40, 300]), pre=rng.choice([0, 10, 60]))
+    for _ in range(30 * n):
+        yield gen_tok(rng, rng.choice([5, 20, 60]))
+    for _ in range(10 * n):
+        yield gen_jump(rng)
+    for _ in range(10 * n):
+        yield gen_pool_bulk(rng, rng.choice([0, 1, 2, 3, 17, 100]))
     for _ in range(120 * n):
         yield gen_cab(rng, rng.choice([10, 30, 80, 200, 400]))
     for _ in range(60 * n):
@@ -340,7 +476,7 @@ def gen(rng, tier):
                 yield list(seq) + rng.choice([['lt tdel 0', 'lt tdel 1', 'lt wnew 0', 'lt wnew 1'], ['lt wnew 0', 'lt wnew 1', 'lt tdel 0', 'lt tdel 1']])
 
 
-KEY_TAGS = ('pool-ctor-alloc-parked', 'pool-dtor-alloc-parked', 'pool-dtor-free', 'pool-drop-live', 'w-last-frees', 't-outlived-by-watchers', 'tok-stale-reused', 'each-removed', 'each-cb-grew', 'pool-reuse', 'rel-last-closes', 'close-shared')
+KEY_TAGS = ('bulk-above-2^16', 'bulk-cross-2^16', 'pool-bulk-over-keep', 'from-dead', 'tok-pos>=2^16', 'tok-pos>=2^32', 'tok-pos>=2^48', 'tok-pos>=2^63', 'tok-id>=2^48', 'tok-id>=2^63', 'jump-near-max', 'openneg', 'pool-ctor-alloc-parked', 'pool-dtor-alloc-parked', 'pool-dtor-free', 'pool-drop-live', 'w-last-frees', 't-outlived-by-watchers', 'tok-stale-reused', 'each-removed', 'each-cb-grew', 'pool-reuse', 'rel-last-closes', 'close-shared')
 
 
 def nontrivial(ops, model_lines):
@@ -356,7 +492,9 @@ def nontrivial(ops, model_lines):
 
 LEVEL_TEXT = ('Lean 4 theorems over hand-written models of Cabinet (intrusive free list as coded), ObjectPool and Fd: free-list shape, '
               'token lookup = finite map of issued tokens with dead tokens dead for ever (histories including clear), distinct ids, size, '
-              'foreach with free/alloc/update/clear from inside callbacks; pool blocks never handed out while live, ctor/dtor balance, statistics, retention limit, '
+              'foreach with free/alloc/update/clear from inside callbacks; the Token class (round trip of full size_t id/position, order, hash); closed-form bulk theorems '
+              '(n allocations: every token resolves to its own object, ids/positions, size; arbitrary subsets freed) for every n; the Array implementation the driver runs proved equal to the model; '
+              'pool blocks never handed out while live (also n objects at once beyond any retention limit, for every n), ctor/dtor balance, statistics, retention limit, '
               'destruction with live objects; Fd reference counts and close-exactly-once; LifetimeTag/Watcher: alive iff the tag exists, record deleted '
               'exactly once after tag and last watcher, no access to a deleted record in any destruction order; models tied to the headers and fd.cpp on every run by differential execution (ASan+UBSan build of the working tree)')
 LEVEL_NOTE = ('trusted: Lean kernel, hand-written models + differential tie (coverage bounded by the generator, measured in evidence); '
